@@ -107,6 +107,14 @@ def check_contact(ctx):
                 pairs = [pairs[i] for i in rng.permutation(len(pairs))]
             fr = make_frame(G, pairs, t0, dt, probe)
             res[kind] = (tfm.contact_tfm(fr, grid, v, interpolation=interp, fillvalue=fill).res, pairs, fr)
+            # ---- oracle: contact TFM is delay-and-sum with lookup times distance/velocity and default weights (Fraction reference)
+            import c02
+            from arim import ut as _ut
+            cdef = dict(tx=np.array([i for i, _ in pairs]), rx=np.array([j for _, j in pairs]), tt=fr.timetraces, dt=dt, t0=t0, lt_tx=lookup, lt_rx=lookup,
+                        amp=False, weights=_ut.default_timetrace_weights([i for i, _ in pairs], [j for _, j in pairs]), interp=interp)
+            want_def, _, sc_def = c02.definition(cdef, complex(fill))
+            if not np.all(np.abs(np.asarray(res[kind][0], dtype=complex).ravel() - want_def) <= 16 * (len(pairs) + 2) * np.finfo(float).eps * (sc_def + 1e-300)):
+                ctx.violate(f"contact TFM ({kind}) is not delay-and-sum with lookup times distance/velocity and the default weights", {**cj, "capture": kind}, {"kind": "contact_definition", "interp": interp})
             Gp = np.array([G[i, j] for i, j in pairs])
             l2.append(" ".join(["ctfm", interp[0], frac_s(F(fill)), "0", frac_s(F(t0)), frac_s(F(dt)), ",".join(f"{i}:{j}" for i, j in pairs),
                                 qmat(Gp.real), qmat(Gp.imag), qmat(lookup)]))
@@ -179,7 +187,7 @@ def check_views(ctx):
         alltimes = np.concatenate([v.tx_path.rays.times.ravel() for v in views.values()])
         tmin, tmax = 2 * alltimes.min(), 2 * alltimes.max()
         ns = int(rng.integers(20, 60))
-        t0 = float(tmin - (tmax - tmin) * 0.05)
+        t0 = float(tmin + (tmax - tmin) * rng.choice([-0.05, 0.02, 0.1]))  # sometimes the window starts after the first arrivals
         dt = float((tmax - tmin) * 1.15 / ns)  # the window contains every arrival time
         G = sym_data(rng, numel, ns, bool(rng.integers(0, 2)))
         pairs = pairs_of(numel, "fmc")
@@ -200,6 +208,12 @@ def check_views(ctx):
             if not close(r1, r2, scale, len(pairs)):
                 ctx.violate(f"view {name} and its reciprocal {rname} give different images for symmetric data", cj, {"kind": "reciprocal_views"})
             ttx, trx = np.asarray(view.tx_path.rays.times), np.asarray(view.rx_path.rays.times)
+            import c02
+            cdef = dict(tx=np.array([i for i, _ in pairs]), rx=np.array([j for _, j in pairs]), tt=fr.timetraces, dt=dt, t0=t0, lt_tx=np.ascontiguousarray(ttx.T),
+                        lt_rx=np.ascontiguousarray(trx.T), amp=False, weights=None, interp=interp)
+            want_def, _, sc_def = c02.definition(cdef, 0j)
+            if not np.all(np.abs(np.asarray(r1, dtype=complex).ravel() - want_def) <= 16 * (len(pairs) + 2) * np.finfo(float).eps * (sc_def + 1e-300)):
+                ctx.violate(f"tfm_for_view({name}) is not delay-and-sum with the transposed ray-tracing times of its two paths", cj, {"kind": "view_definition", "interp": interp})
             Gp = np.array([G[i, j] for i, j in pairs])
             lines.append(" ".join(["vtfm", interp[0], "0", "0", frac_s(F(t0)), frac_s(F(dt)), ",".join(f"{i}:{j}" for i, j in pairs),
                                    qmat(Gp.real), qmat(Gp.imag), qmat(ttx), qmat(trx)]))
